@@ -25,7 +25,12 @@ class CreateAnalysis:
 def analyze_create(st):
     """st: explore.Step of a create command that exited 0/10/11.  Returns CreateAnalysis or None (n/a)."""
     w, argv, res = st.world, st.op["argv"], st.res
-    if argv[0] != "create" or res.outcome[0] != "exit" or res.outcome[1] not in (0, 10, 11):
+    ok_codes = (0, 10, 11)
+    if "-sf" not in argv and "--single_file" not in argv:
+        # folder mode reports a nested history that vanished (its ascmhl folder is gone while the latest outer generation
+        # still references it) with code 30 -- after the generations have been written, like the other findings
+        ok_codes += (30,)
+    if argv[0] != "create" or res.outcome[0] != "exit" or res.outcome[1] not in ok_codes:
         return None
     A = CreateAnalysis()
     A.argv = argv
